@@ -116,10 +116,12 @@ def walk_two_vertices(v0, v1, layers):
                                                 [v0[axis - 1], v1[axis - 1]],
                                                 kind="linear")
     for value in range(v0[axis], v1[axis], delta):
+        # pixel that holds the interpolated point: without this the set below only removes positions that are
+        # exactly equal as floats, and pixels of overlapping windows are summed several times
         if axis == 0:
-            position = (value, interpolation(value))
+            position = (value, int(interpolation(value)))
         else:
-            position = (interpolation(value), value)
+            position = (int(interpolation(value)), value)
 
         vertices_to_return.update(get_layer_elements(position, layers))
     return vertices_to_return
